@@ -44,5 +44,5 @@ try:
             print(c.stderr[-600:])
 finally:
     sh("git -C /repo checkout -- .")
-    sh("git -C /repo clean -fdq -- src codegen")
+    sh("git -C /repo clean -fdq -- src codegen tests")
     assert sh("git -C /repo status --porcelain").stdout.strip() == "", "repo still dirty"
